@@ -32,3 +32,5 @@ def run(prog, rep):
     _rkx.run_handles_only(prog, rep)
     r_pair.run_pos_pass(prog, rep)
     _ru.run_scale_positions(prog, rep)
+    from ..rules import r_flow as _rfa
+    _rfa.run_aligned(prog, rep)
